@@ -25,10 +25,11 @@ for d in sorted(glob.glob(os.path.join(root, "seeded", "*"))):
     if not os.path.exists(mp):
         continue
     m = json.load(open(mp))
-    chk = "; ".join(f"{c['check']}: {c['exit']} / {'yes' if c.get('concrete_replay') else 'no'}" for c in m.get("checks", []))
-    own = [c for c in m.get("checks", []) if c["check"] == m.get("property")]
+    cur = m.get("final_evaluation", {}).get("checks") or m.get("checks", [])
+    chk = "; ".join(f"{c['check']}: {c['exit']} / {'yes' if c.get('concrete_replay') else 'no'}" for c in cur)
+    own = [c for c in cur if c["check"] == m.get("property")]
     tot += 1
-    caught += any(c.get("caught") for c in (own or m.get("checks", [])))
+    caught += any(c.get("caught") for c in (own or cur))
     note = (m.get("history") or "")[:200].replace("|", "/").replace("\n", " ")
     needs = str(m.get("needs_to_manifest", ""))[:170].replace("|", "/").replace("\n", " ")
     out.append(f"| {os.path.basename(d)} | {m.get('property')} | {needs} | {chk} | {note} |")
